@@ -25,6 +25,7 @@ from __future__ import annotations
 import ast
 
 from ..repo import AnalysisError, dotted, own_nodes
+from .common import source_pos
 
 MANIFEST = {
     "text": (
@@ -161,6 +162,30 @@ def _name_filters(ctx, save, load):
         chk.ok("R20.a", load.qualname, load.loc(), "the reader applies no name filter to the frame directory")
 
 
+def _by_role(ctx, module_suffix, pred, what, prefer=None):
+    """The module-level function of the visualisation module that plays a
+    role (recognised by what it calls), independent of its private name."""
+    cands = []
+    for fi in ctx.repo.all_functions():
+        if isinstance(fi.node, ast.Lambda) or fi.cls is not None or not fi.module.name.endswith(module_suffix):
+            continue
+        if any(pred(n) for n in own_nodes(fi.node)):
+            cands.append(fi)
+    if prefer:
+        named = [f for f in cands if f.name == prefer]
+        if named:
+            return named[0]
+    if len(cands) == 1:
+        return cands[0]
+    if not cands:
+        raise AnalysisError(f"no function {what} found in *{module_suffix}")
+    raise AnalysisError(f"{len(cands)} functions {what} in *{module_suffix}: {[f.name for f in cands]}")
+
+
+def _calls_attr(*attrs):
+    return lambda n: isinstance(n, ast.Call) and isinstance(n.func, ast.Attribute) and n.func.attr in attrs
+
+
 def _legend_labels(ctx):
     """R20.b (labels): the label of a legend entry is looked up with the job
     id whose colour the entry carries, never with a position in some
@@ -220,8 +245,9 @@ def run(ctx):
         ("R20.e", "x axis ends at xlim if given else at the makespan; last tick is that value"),
     ):
         chk.rule(rid, txt)
-    save = repo.find_function("_save_frame")
-    load = repo.find_function("_load_images")
+    GIFMOD, PLOTMOD = "_gantt_chart_video_and_gif_creation", "_plot_gantt_chart"
+    save = _by_role(ctx, GIFMOD, _calls_attr("savefig"), "that saves a figure (savefig)", prefer="_save_frame")
+    load = _by_role(ctx, GIFMOD, _calls_attr("imread"), "that reads the frame images (imread)", prefer="_load_images")
 
     # ---------------------------------------------------------------- R20.a
     fmt = None
@@ -281,10 +307,56 @@ def run(ctx):
     _legend_labels(ctx)
 
     # ---------------------------------------------------------------- R20.b
-    pms = repo.find_function("_plot_machine_schedules")
     try:
-        pso = repo.find_function("_plot_scheduled_operation")
+        pso = _by_role(ctx, PLOTMOD, _calls_attr("broken_barh"), "that draws a bar (broken_barh)", prefer="_plot_scheduled_operation")
     except AnalysisError:
+        pso = None
+    # every bar call draws the single range of one operation
+    batched = False
+    for f in repo.all_functions():
+        if isinstance(f.node, ast.Lambda) or not f.module.name.endswith(PLOTMOD):
+            continue
+        for n in own_nodes(f.node):
+            if isinstance(n, ast.Call) and ast.unparse(n.func).endswith("broken_barh"):
+                xr = n.args[0] if n.args else None
+                if not (isinstance(xr, ast.List) and len(xr.elts) == 1):
+                    batched = True
+                    chk.violation(
+                        "R20.b", f, n,
+                        f"broken_barh is called with `{ast.unparse(xr) if xr is not None else '?'}`, a collection of ranges "
+                        "built elsewhere, instead of the single range of one scheduled operation: bars are batched or "
+                        "merged, so the chart no longer has exactly one bar per operation",
+                        loc=f.loc(n),
+                    )
+    if batched:
+        pso = None
+    if pso is not None and sum(1 for n in own_nodes(pso.node) if isinstance(n, ast.For)) >= 2:
+        # the bar is drawn inside the machine/operation loops themselves
+        # (per-operation helper inlined): handled by the helper-less branch
+        inlined_into, pso = pso, None
+    else:
+        inlined_into = None
+    if pso is not None:
+        _pso_name = pso.name
+        pms = _by_role(
+            ctx, PLOTMOD,
+            lambda n: isinstance(n, ast.Call) and isinstance(n.func, ast.Name) and n.func.id == _pso_name,
+            "that calls the bar-drawing helper", prefer="_plot_machine_schedules",
+        )
+    elif inlined_into is not None:
+        pms = inlined_into
+    else:
+        pms = _by_role(
+            ctx, PLOTMOD, lambda n: isinstance(n, ast.Call) and ast.unparse(n.func) == "Patch",
+            "that builds the legend patches", prefer="_plot_machine_schedules",
+        )
+    PSO = pso.name if pso is not None else "_plot_scheduled_operation"
+    # other private helpers of the loop function (legend bookkeeping etc.) are
+    # inlined; the bar-drawing helper stays a call because R20.b judges its call site
+    pms_raw = pms
+    if pso is not None:
+        pms = ctx.norm.flat(pms, keep=(pso.qualname,))
+    if pso is None:
         # the per-operation helper is gone: judge the bar calls wherever they are
         mod = pms.module
         bars = [
@@ -307,7 +379,7 @@ def run(ctx):
         if bars and not any(i["rule"] == "R20.b" and i["verdict"] != "holds" for i in chk.instances):
             raise AnalysisError("_plot_scheduled_operation vanished and the new bar-drawing shape is not recognised")
         pso = None
-    fors = sorted([n for n in own_nodes(pms.node) if isinstance(n, ast.For)], key=lambda n: n.lineno)
+    fors = sorted([n for n in own_nodes(pms.node) if isinstance(n, ast.For)], key=source_pos(pms.node))
     ok = True
     if pso is None:
         fors = []
@@ -331,8 +403,8 @@ def run(ctx):
         chk.violation("R20.b", pms, fors[1], f"bars are drawn over `{ast.unparse(fors[1].iter)}`, not over every scheduled operation of the machine", loc=pms.loc(fors[1]))
     else:
         sv = fors[1].target.id
-        calls = [st for st in fors[1].body if isinstance(st, ast.Expr) and isinstance(st.value, ast.Call) and ast.unparse(st.value.func) == "_plot_scheduled_operation"]
-        nested = [n for n in ast.walk(fors[1]) if isinstance(n, ast.Call) and ast.unparse(n.func) in ("_plot_scheduled_operation", "ax.broken_barh")]
+        calls = [st for st in fors[1].body if isinstance(st, ast.Expr) and isinstance(st.value, ast.Call) and ast.unparse(st.value.func) == PSO]
+        nested = [n for n in ast.walk(fors[1]) if isinstance(n, ast.Call) and ast.unparse(n.func) in (PSO, "ax.broken_barh")]
         early = False
         for st in fors[1].body:
             if calls and st is calls[0]:
@@ -445,12 +517,13 @@ def run(ctx):
                     body_calls.append(n)
         disp = [c for c in body_calls if isinstance(c.func, ast.Attribute) and c.func.attr == "dispatch"]
         plot = [c for c in body_calls if isinstance(c.func, ast.Name) and c.func.id == "plot_function"]
-        sv = [c for c in body_calls if isinstance(c.func, ast.Name) and c.func.id == "_save_frame"]
+        sv = [c for c in body_calls if isinstance(c.func, ast.Name) and c.func.id == save.name]
         if len(disp) != 1 or len(plot) != 1 or len(sv) != 1:
             okc = False
             chk.violation("R20.c", frames, lp, "each frame is not produced by exactly one dispatch, one plot and one save", loc=frames.loc(lp))
         else:
-            if not (disp[0].lineno < plot[0].lineno < sv[0].lineno):
+            _p = source_pos(frames.node)
+            if not (_p(disp[0]) < _p(plot[0]) < _p(sv[0])):
                 okc = False
                 chk.violation("R20.c", frames, plot[0], "the frame is plotted before its operation is dispatched (frame k shows k-1 operations)", loc=frames.loc(plot[0]))
             if [ast.unparse(a) for a in disp[0].args] != [f"{rec}.operation", f"{rec}.machine_id"]:
@@ -503,8 +576,21 @@ def run(ctx):
         chk.violation("R20.d", sch, None, "GanttChartCreator.schedule is not the dispatcher's live schedule")
 
     # ---------------------------------------------------------------- R20.e
-    ca_raw = repo.find_function("_configure_axes")
-    ca = ctx.norm.flat(ca_raw)
+    # the function that decides the x limit: its flattened body (private
+    # helpers inlined) both reads the makespan and calls set_xlim; the
+    # smallest such function is taken
+    cands = []
+    for fi in repo.all_functions():
+        if isinstance(fi.node, ast.Lambda) or fi.cls is not None or not fi.module.name.endswith(PLOTMOD):
+            continue
+        ff = ctx.norm.flat(fi, depth=3)
+        calls = {n.func.attr for n in own_nodes(ff.node) if isinstance(n, ast.Call) and isinstance(n.func, ast.Attribute)}
+        if "set_xlim" in calls and "makespan" in calls:
+            cands.append((len(list(ast.walk(ff.node))), fi.qualname, fi, ff))
+    if not cands:
+        raise AnalysisError("no function of the plot module both reads the makespan and sets the x limits")
+    cands.sort(key=lambda c: (c[0], c[1]))
+    ca_raw, ca = cands[0][2], cands[0][3]
     nodes = list(own_nodes(ca.node))
     src = ast.unparse(ca.node).replace(" ", "")
     oke = True
